@@ -202,6 +202,10 @@ class CachedStore(Entity):
         if self._write_through:
             # Write to backing store
             yield from self._backing_store.put(key, value)
+            if key in self._cache:
+                # A miss fill that raced with this write may have re-cached the
+                # old value; the completed write must not be shadowed by it
+                self._cache[key] = value
         else:
             # Mark as dirty for later writeback
             self._dirty_keys.add(key)
@@ -224,6 +228,9 @@ class CachedStore(Entity):
             self._cache_remove(key)
 
         existed_in_store = yield from self._backing_store.delete(key)
+        if key in self._cache and key not in self._dirty_keys:
+            # A miss fill that raced with the delete re-cached the deleted value
+            self._cache_remove(key)
         return existed_in_cache or existed_in_store
 
     def invalidate(self, key: str) -> None:
